@@ -32,7 +32,7 @@ func (b bufInfo) end() int { return b.Off + b.Pages*pageSize }
 
 type opRec struct {
 	Idx   int    `json:"i"`
-	Kind  string `json:"k"` // h2d, d2h, kernel, verify
+	Kind  string `json:"k"` // h2d, d2h, kernel, verify, rehome
 	Off   int    `json:"off"`
 	N     int    `json:"n"`
 	Type  string `json:"t,omitempty"`
@@ -40,6 +40,8 @@ type opRec struct {
 	Class string `json:"class,omitempty"`
 	Extra string `json:"x,omitempty"`
 	old   []byte // bytes overwritten by a write op
+	src   int    // device copy kernel: arena offset of its source + 1 (0 = none)
+	gpu   int    // kernel: GPU it was launched on (0 = not a kernel)
 }
 
 func (o opRec) String() string {
@@ -68,6 +70,13 @@ type ctxModel struct {
 	bufs   []bufInfo
 	pagePA []uint64
 	pageDv []int
+
+	// re-homing in mid-history (rehome.go), per arena page
+	kTouch   []uint8 // bit g: a kernel launched on GPU g has read / written the page (GPU g may hold its translation)
+	rehOp    []int32 // index of the op that last gave the page a new frame, -1 never
+	rehStale []uint8 // kTouch at that moment: GPUs that had used the OLD frame
+	undef    []bool  // per arena byte: contents undefined (page re-homed, not rewritten yet)
+	nUndef   int
 
 	queues []*driver.CommandQueue
 	qGPU   []int
@@ -216,11 +225,16 @@ func (m *ctxModel) flushWouldBeMissed(off, n int) bool {
 func (m *ctxModel) applyWrite(o *opRec, data []byte) {
 	o.old = append([]byte(nil), m.shadow[o.Off:o.Off+o.N]...)
 	copy(m.shadow[o.Off:], data)
+	if o.src > 0 {
+		m.mustBeDefined(o.src-1, o.N, "device copy kernel source")
+	}
+	m.define(o.Off, o.N)
 	m.ops = append(m.ops, *o)
 	m.lastWrite = len(m.ops) - 1
 }
 
 func (m *ctxModel) applyKernel(o *opRec, op kern.Op, c uint32) {
+	m.mustBeDefined(o.Off, o.N, "read-modify-write kernel")
 	o.old = append([]byte(nil), m.shadow[o.Off:o.Off+o.N]...)
 	for i := o.Off; i < o.Off+o.N; i += 4 {
 		x := uint32(m.shadow[i]) | uint32(m.shadow[i+1])<<8 | uint32(m.shadow[i+2])<<16 | uint32(m.shadow[i+3])<<24
